@@ -98,9 +98,14 @@ def oracle(case, io, mo):
     if grid is None:
         return "no grid"
     scale = max([1.0] + [abs(p[1]) for p in pts])
+    f6 = None
     for row in grid:
         x, vr, vo = int(row[0]), fl(row[1]), fl(row[2])
         if abs(vr - vo) > TOL * scale:
+            if len(row) > 3:
+                # exactly on a time shared by two control points the curve is two-valued: known finding F6
+                f6 = f"[F6] {k}: at the jump instant {x} the piece reports {vr!r}, value_at of the original reports {vo!r}"
+                continue
             return f"{k}: value {vr!r} at offset {x} of the result, the original curve has {vo!r} there"
     if k in ("sample_at", "extend_until") and int(op[1]) >= 0:
         if int(op[1]) not in times_of(io[1]):
@@ -119,7 +124,11 @@ def oracle(case, io, mo):
             gaps = [b - a for a, b in zip(cuts, cuts[1:])]
             if ds != gaps and ds != gaps + [0] and not (total == 0):
                 return f"split_at: part durations {ds} are not the gaps {gaps} between the cut times"
-    return None
+    return f6
+
+
+def known(f, case, msg, io):
+    return f.get("id") == "F6" and (msg or "").startswith("[F6]")
 
 
 def nontrivial(case, io):
